@@ -1782,7 +1782,9 @@ bool TypeChecker::checkExpression(expression_t expr)
         break;
 
     case SPAWN: {
-        template_t* temp = document.find_dynamic_template(expr[0].get_symbol().get_name());
+        // expr[0] names the template; it has no symbol if the name could not be resolved
+        const symbol_t spawned = expr[0].get_symbol();
+        template_t* temp = (spawned != symbol_t()) ? document.find_dynamic_template(spawned.get_name()) : nullptr;
         if (!temp) {
             handleError(expr, "It appears your trying to spawn a non-dynamic template");
             return false;
@@ -1807,7 +1809,8 @@ bool TypeChecker::checkExpression(expression_t expr)
     }
 
     case NUMOF: {
-        template_t* temp = document.find_dynamic_template(expr[0].get_symbol().get_name());
+        const symbol_t counted = expr[0].get_symbol();
+        template_t* temp = (counted != symbol_t()) ? document.find_dynamic_template(counted.get_name()) : nullptr;
         if (temp) {
             type = type_t::create_primitive(Constants::INT);
         } else {
